@@ -123,6 +123,8 @@ def main():
     parts.append(summary_table())
     parts.append((ROOT / 'design' / 'back.md').read_text() if (ROOT / 'design' / 'back.md').exists() else '')
     parts.append(axioms_table())
+    if (ROOT / 'design' / 'coqchk.md').exists():
+        parts.append((ROOT / 'design' / 'coqchk.md').read_text())
     parts.append(seeded_table())
     (ROOT / 'DESIGN.md').write_text('\n'.join(parts))
     print('DESIGN.md', sum(len(p) for p in parts), 'chars')
